@@ -139,6 +139,19 @@ def run_removal(inst, leaving, seed, lines=False, second=False):
     def body():
         nonlocal o
         o = run_local_thread_dcop(algo_def, cg, dist, dcop, 10000, replication="dist_ucs_hostingcosts")
+        import traceback as _tb
+
+        o._own_agt.on_fatal_error = lambda e: out["fatal"].append(("orchestrator", "%s: %s | %s" % (type(e).__name__, str(e)[:300], " < ".join(
+            "%s:%d" % (f.name, f.lineno) for f in reversed(_tb.extract_tb(e.__traceback__)[-5:])))))
+        if os.environ.get("PV_DEBUG_DIR"):
+            for meth in ("stop", "clean_shutdown"):
+                def mk(meth, orig):
+                    def w(*a, **k):
+                        out.setdefault("orch_stop_calls", []).append((meth, threading.current_thread().name, " < ".join(
+                            "%s:%d" % (f.name, f.lineno) for f in reversed(_tb.extract_stack()[-7:-1]))))
+                        return orig(*a, **k)
+                    return w
+                setattr(o._own_agt, meth, mk(meth, getattr(o._own_agt, meth)))
         o.deploy_computations()
         o.start_replication(inst["k"])
         if not o.wait_ready():
@@ -310,7 +323,26 @@ def run_removal(inst, leaving, seed, lines=False, second=False):
         drv.start()
         drv.join(150 if second else 100)
         if drv.is_alive():
-            out["errors"].append("harness watchdog: driver still blocked after 100 s")
+            import sys
+            import traceback
+
+            stacks = []
+            names = {t.ident: t.name for t in threading.enumerate()}
+            for tid, fr in sys._current_frames().items():
+                nm = names.get(tid, "?")
+                if nm.startswith("pv_") or nm.startswith("thread_"):
+                    stacks.append("%s: %s" % (nm, " < ".join("%s:%d" % (f.name, f.lineno) for f in reversed(traceback.extract_stack(fr)[-4:]))))
+            try:
+                known = sorted(o.discovery.agents())
+            except Exception as e:
+                known = "%s" % e
+            out["errors"].append("harness watchdog: driver still blocked after %d s; orchestrator thread alive %r, stop calls %r; leaving %r second %r; directory agents %r; alive %r; fatal %r; timeline %r; reports %r; states %r; threads %s" % (
+                150 if second else 100, o._own_agt.t.is_alive(), out.get("orch_stop_calls"), leaving, (out.get("second") or {}).get("leaving"), known, sorted(a for a, ag in AG.items() if ag.t.is_alive()), out["fatal"][:12],
+                out["timeline"], [x.get("status") for x in out["reports"]],
+                dict(getattr(getattr(o, "mgt", None), "_agts_state", {}) or {}), " | ".join(stacks)[:1500]))
+            if os.environ.get("PV_DEBUG_DIR"):
+                with open(os.path.join(os.environ["PV_DEBUG_DIR"], "c27_watchdog_%d.txt" % os.getpid()), "a") as f_:
+                    f_.write(out["errors"][-1] + "\n\n")
         out["errors"] += err
     finally:
         per.stop()
@@ -375,6 +407,12 @@ def analyse(inst, r):
     """-> (problems, stats)"""
     P = []
     S = {"rehosted": 0, "orphaned": 0, "in_scope": False}
+    dead = [e for a, e in r.get("fatal", []) if a == "orchestrator"]
+    if dead:
+        # the orchestrator's own agent thread (directory, management) ended with an exception: no later event of the run can
+        # be repaired or reported, and run() never returns
+        return [("orchestrator-thread-died:%s" % dead[0].split(":")[0], "the orchestrator's agent thread died during a resilient run (departure of %r): %s" % (
+            sorted(r["leaving"]), dead[0]))], S
     if r["errors"]:
         return [("harness:exception", r["errors"][0])], S
     leaving = set(r["leaving"])
